@@ -1,6 +1,7 @@
 package main
 
 import (
+	"os"
 	"fmt"
 	"go/token"
 	"go/types"
@@ -258,6 +259,8 @@ func (x *Exec) havocLoop(st *State, fn *ssa.Function, l *Loop, lc *LoopContract)
 			return nil
 		}
 	}
+	fvBind := map[*ssa.FreeVar]Value{}
+	preciseCells := map[string][]string{} // cell array|sort -> references to havoc
 	type mapRow struct {
 		alloc  *ssa.Alloc
 		ks, vs string
@@ -287,6 +290,18 @@ func (x *Exec) havocLoop(st *State, fn *ssa.Function, l *Loop, lc *LoopContract)
 		if a, ok := r.(*ssa.Alloc); ok && !a.Heap {
 			cells[a] = true
 			return
+		}
+		if fv, ok := addr.(*ssa.FreeVar); ok {
+			// a captured variable written by a closure that runs inside the loop: exactly that cell
+			if bv, ok := fvBind[fv]; ok && bv.Ptr != nil && bv.Ptr.Cell == nil && bv.Ptr.Base != "" && len(bv.Ptr.Steps) == 0 {
+				el := fv.Type().(*types.Pointer).Elem()
+				if _, isStruct := types.Unalias(el).Underlying().(*types.Struct); !isStruct || isTime(el) || x.TM.IsOpaqueStruct(el) {
+					key := x.TM.Key(el)
+					name := x.TM.CellArray(key)
+					preciseCells[name+"|"+ksort(key)] = append(preciseCells[name+"|"+ksort(key)], bv.Ptr.Base)
+					return
+				}
+			}
 		}
 		// heap: by the first access step
 		switch a := addr.(type) {
@@ -418,6 +433,39 @@ func (x *Exec) havocLoop(st *State, fn *ssa.Function, l *Loop, lc *LoopContract)
 					}
 					if cc.StaticCallee() == nil {
 						unknownCall = true
+						// a call through a function value (e.g. the yield of a range-over-func iterator): when the
+						// value is a known closure of an enclosing frame its body is part of the loop; otherwise
+						// nothing is known about what it writes
+						resolved := false
+						for fi := len(st.Frames) - 1; fi >= 0 && !resolved; fi-- {
+							rv, ok := st.Frames[fi].Regs[cc.Value]
+							if ld, isLd := cc.Value.(*ssa.UnOp); !ok && isLd && ld.Op == token.MUL {
+								// naive SSA form: the function value is loaded from the local cell of a parameter
+								// or variable that the loop does not assign
+								if a, isA := ld.X.(*ssa.Alloc); isA && !cells[a] {
+									rv, ok = st.Frames[fi].Locals[a]
+								}
+							}
+							if ok && rv.Clo != nil {
+								resolved = true
+								cfn := rv.Clo.Fn
+								for bi, fv := range cfn.FreeVars {
+									if bi < len(rv.Clo.Bindings) {
+										fvBind[fv] = rv.Clo.Bindings[bi]
+									}
+								}
+								if !seenFn[cfn] {
+									seenFn[cfn] = true
+									scanBlocks(cfn, cfn.Blocks, func(*ssa.BasicBlock) bool { return true })
+								}
+							}
+						}
+						if !resolved {
+							if os.Getenv("GOVC_DEBUG_LOOP") != "" {
+								fmt.Fprintf(os.Stderr, "loop havoc: unresolved function value %s in %s (%T)\n", cc.Value.Name(), f.Name(), cc.Value)
+							}
+							allHeap = true
+						}
 					}
 					if callee := cc.StaticCallee(); callee != nil {
 						if callee.Parent() != nil {
@@ -556,6 +604,22 @@ func (x *Exec) havocLoop(st *State, fn *ssa.Function, l *Loop, lc *LoopContract)
 			if !done[ref] {
 				done[ref] = true
 				cur = Store(cur, ref, x.D.Fresh("hrow", rowSort))
+			}
+		}
+		st.Heap[n] = cur
+	}
+	for _, key := range sortedKeys(preciseCells) {
+		i := strings.Index(key, "|")
+		n, vs := key[:i], key[i+1:]
+		if _, whole := arrays[n]; whole || allHeap {
+			continue
+		}
+		cur := x.heapArr(st, n, SInt, vs)
+		done := map[string]bool{}
+		for _, ref := range preciseCells[key] {
+			if !done[ref] {
+				done[ref] = true
+				cur = Store(cur, ref, x.D.Fresh("hcell", vs))
 			}
 		}
 		st.Heap[n] = cur
